@@ -4,7 +4,7 @@
    they did before this call's t-th access; it may differ at every access, so every schedule of every number of
    threads is covered), and every write of this call is Good, so it is itself admissible interference for the others.
    The eviction tables H, C of a call are created by the call and never shared (translated: fresh_counts_per_call). *)
-From Connectome Require Import Values Attrs VM Edges EdgesGen Store MiscGen Evaluator L2 HashSound SpecEq EqFacts C01Inst C04Main Total Examples.
+From Connectome Require Import Values Attrs VM Edges EdgesGen Store MiscGen Evaluator L2 HashSound SpecEq EqFacts C01Inst C04Main Total RaiseDir C01Raise Examples.
 Local Open Scope list_scope.
 
 Theorem C11_any_schedule :
@@ -23,6 +23,26 @@ Theorem C11_any_schedule :
     /\ CInvS apply (snd (sto tstore s')).
 Proof. exact call_transparent_env. Qed.
 Print Assumptions C11_any_schedule.
+
+(* ... and when user functions fail: under any schedule and any behaviour of the user functions the call is, at every
+   step, still running, or has returned the cache-free value, or has stopped with the exception of a user function that
+   raised - never with an internal error caused by what the other threads did to the caches *)
+Theorem C11_failures_are_user_exceptions :
+  forall apply (g : graph) (ins : list (nat * val)) raises,
+  wf g ->
+  (forall n v e ps, aget ins n = Some v -> nth n g Leaf = Inner e ps -> False) ->
+  (forall n e ps, nth n g Leaf = Inner e ps -> node_ok e ps) ->
+  (forall n e ps, nth n g Leaf = Inner e ps -> edge_ok e (List.length ps) = true) ->
+  (forall n c ps, nth n g Leaf = Inner (ECache c) ps ->
+     exists F h v, sem apply quiet g ins F n = Some (h, v) /\ nonum_h h = true) ->
+  forall o F h v (σ : cstore) (env : nat -> cstore -> cstore),
+  (forall t s, CInvS apply s -> CInvS apply (env t s)) ->
+  o <= List.length g -> sem apply quiet g ins F o = Some (h, v) -> CInvS apply σ ->
+  exists k s', forall k',
+    let out := call (shape g) (gens_of g) apply raises tstore tget tset (tenv env) ins o (0, σ) k' in
+    (exists s1, out = Running tstore s1 /\ k' < k) \/ out = Finished tstore (SVal v) s' \/ user_raise raises tstore out.
+Proof. exact scheduled_only_user_exceptions. Qed.
+Print Assumptions C11_failures_are_user_exceptions.
 
 (* guarantee half, stated on its own: get, set and clear of the concrete caches keep every entry Good, and a cache
    never returns a value stored under another key (the returned value is Good for the key that was asked) *)
